@@ -438,6 +438,22 @@ package rlwe
 //@   loop 0 invariant? j == i - logN
 //@   loop 0 invariant forall(k, 0, i - logN, galEls[k] < nr && cong(galEls[k], pow(GaloisGen, ((1 << (logN + k)) % W) & (nr - 1)), nr))
 
+// The keys Pack needs (finding F62): it merges in the steps i = LogN - logGap .. LogN - 1; step i > 0 applies
+// X -> X^(5^(2^(i-1))), step 0 the automorphism X -> X^-1.  The advertised list is exactly those, in that order
+// (the order-two element last).
+//@ func GaloisElementsForPack
+//@   property C11
+//@   let nr = p.ringQ.SubRings[0].NthRoot
+//@   let s = p.logN - logGap
+//@   panics logGap > p.logN || logGap < 0 || p.ringType != ring.Standard
+//@   ensures implies(s != 0, len(galEls) == logGap && forall(k, 0, logGap, galEls[k] < nr && cong(galEls[k], pow(GaloisGen, ((1 << (s + k - 1)) % W) & (nr - 1)), nr)))
+//@   ensures implies(s == 0, len(galEls) == logGap && forall(k, 0, logGap - 1, galEls[k] < nr && cong(galEls[k], pow(GaloisGen, ((1 << k) % W) & (nr - 1)), nr)))
+//@   ensures implies(s == 0 && 0 < logGap, galEls[logGap - 1] == nr - 1)
+//@   loop 0 invariant s <= i && i <= p.logN && fresh(galEls) && 0 <= s
+//@   loop 0 invariant implies(s != 0, len(galEls) == i - s) && implies(s == 0 && i > 0, len(galEls) == i - 1) && implies(s == 0 && i == 0, len(galEls) == 0)
+//@   loop 0 invariant implies(s != 0, forall(k, 0, i - s, galEls[k] < nr && cong(galEls[k], pow(GaloisGen, ((1 << (s + k - 1)) % W) & (nr - 1)), nr)))
+//@   loop 0 invariant implies(s == 0, forall(k, 0, i - 1, galEls[k] < nr && cong(galEls[k], pow(GaloisGen, ((1 << k) % W) & (nr - 1)), nr)))
+
 // The discrete logarithm: for every Galois element g = 5^kk (mod NthRoot) with kk in
 // [0, NthRoot/4) the function returns kk (dlog and lg2 are uninterpreted: the contract holds for
 // every exponent kk with that property and every NthRoot = 2^n).  One iteration is the Lean
